@@ -5,6 +5,7 @@ pub mod c08;
 pub mod c09;
 pub mod c10;
 pub mod c11;
+pub mod c13;
 
 pub fn run(ctx: &Ctx) -> i32 {
     match ctx.prop.as_str() {
@@ -13,6 +14,7 @@ pub fn run(ctx: &Ctx) -> i32 {
         "C09" => c09::run(ctx),
         "C10" => c10::run(ctx),
         "C11" => c11::run(ctx),
+        "C13" => c13::run(ctx),
         _ => {
             eprintln!("machinery error: no check registered for {}", ctx.prop);
             2
@@ -38,6 +40,7 @@ pub fn replay(ctx: &Ctx, path: &str) -> i32 {
         "C09" => c09::replay(ctx, &body),
         "C10" => c10::replay(ctx, &body),
         "C11" => c11::replay(ctx, &body),
+        "C13" => c13::replay(ctx, &body),
         _ => {
             eprintln!("machinery error: no replay registered for {}", ctx.prop);
             2
